@@ -15,11 +15,14 @@ EXTENDS Geometry, FiniteSets, TLC
 
 CONSTANTS Coords,     \* coordinate values of rectangle corners
           Centres,    \* coordinate values of disc centres
-          Radii,      \* disc radii
+          Radii,      \* disc radii (>= 0)
+          NegRadii,   \* magnitudes of negative radii (empty discs; a cfg file cannot hold
+                      \* negative numbers)
           PMax        \* test points 0..PMax in both axes
 
 Rects == {MkRect("r", c[1], c[2], c[3], c[4]) : c \in Coords \X Coords \X Coords \X Coords}
-Discs == {MkCirc("c", c[1], c[2], r) : c \in Centres \X Centres, r \in Radii}
+AllRadii == Radii \cup {0 - r : r \in NegRadii}
+Discs == {MkCirc("c", c[1], c[2], r) : c \in Centres \X Centres, r \in AllRadii}
 Regions == Rects \cup Discs
 Points == (0..PMax) \X (0..PMax)
 
@@ -47,4 +50,8 @@ Degenerate ==
           \A p \in Points : InRegion(outer, p[1], p[2], 1) <=> (p[1] = outer.a /\ p[2] = outer.b)
     /\ (outer.t = "rect" /\ outer.a = outer.c /\ outer.b = outer.d) =>
           \A p \in Points : InRegion(outer, p[1], p[2], 1) <=> (p[1] = outer.a /\ p[2] = outer.b)
+
+\* a disc of negative radius is empty
+EmptyDisc ==
+    (outer.t = "circ" /\ outer.c < 0) => \A p \in Points : ~InRegion(outer, p[1], p[2], 1)
 =============================================================================
